@@ -7,6 +7,7 @@ import (
 	"os"
 	"path/filepath"
 	"reflect"
+	"sort"
 	"strings"
 	"time"
 
@@ -226,12 +227,18 @@ func c14Replay(c *core.Ctx, si int, plan []int) {
 	fixedPlan = append([]int{}, plan...)
 	useFixed = true
 	defer func() { useFixed = false }()
+	if c14ReplaySc != nil {
+		c14Scenario1(c, -1, *c14ReplaySc, 0)
+		return
+	}
 	c14Scenario1(c, si, c14Scenarios[si], 0)
 }
 
 var (
-	fixedPlan []int
-	useFixed  bool
+	fixedPlan   []int
+	useFixed    bool
+	c14PairMode bool // battery scenario: its replay record carries the calls, not an index
+	c14ReplaySc *c14Scenario
 )
 
 func c14Scenario1(c *core.Ctx, si int, sc c14Scenario, bound int) {
@@ -343,6 +350,10 @@ func c14Scenario1(c *core.Ctx, si int, sc c14Scenario, bound int) {
 		c.Max("max_points_per_schedule", int64(len(tr.Taken)))
 		c.Max("max_switches", int64(tr.Switches))
 		rp := map[string]interface{}{"scenario": si, "name": sc.Name, "plan": plan}
+		if si < 0 {
+			rp["threads"] = sc.Threads
+			rp["max_trials"] = sc.MaxTrials
+		}
 		if tr.Overflow {
 			c.Incomplete("more than %d scheduling points in %q", 1<<16, sc.Name)
 			break
@@ -404,7 +415,9 @@ func c14Scenario1(c *core.Ctx, si int, sc c14Scenario, bound int) {
 	}
 	c.Count("nodes", ch.Nodes)
 	c.Count("edges", ch.Edges)
-	c.Count(fmt.Sprintf("schedules_scenario_%d_bound_%d", si, bound), ch.Executions)
+	if si >= 0 {
+		c.Count(fmt.Sprintf("schedules_scenario_%d_bound_%d", si, bound), ch.Executions)
+	}
 	c.Count("scenario_runs", 1)
 }
 
@@ -490,9 +503,55 @@ func c14Run(c *core.Ctx) {
 		}
 		c14Scenario1(c, j.si, c14Scenarios[j.si], j.bound)
 	}
+	// battery: every unordered pair of calls of the alphabet (and every call
+	// with itself) on two threads, the default schedule only, under the default
+	// retry budget and under MaxTrials = 10. The hand-off between the two
+	// threads is no happens-before edge, so one schedule is enough for the race
+	// detector to see any state that both calls touch unsynchronised; the
+	// deviation-bounded exploration above is what finds atomicity failures.
+	if os.Getenv("VERIF_C14_ONLY") == "" {
+		var names []string
+		for name := range c14Calls {
+			if !strings.HasPrefix(name, "w5.") { // (the 5001-word list is covered by its own scenario)
+				names = append(names, name)
+			}
+		}
+		sort.Strings(names)
+		k := 0
+		for _, mt := range []int{0, 10} {
+			for i, a := range names {
+				for _, b := range names[i:] {
+					if mt != 0 && !c14UsesSeparator(a) && !c14UsesSeparator(b) {
+						continue // the tuned battery: pairs involving a separator function
+					}
+					k++
+					if k%c.NShards != c.Shard {
+						continue
+					}
+					if c.Expired() {
+						c.Incomplete("deadline in the pair battery")
+						break
+					}
+					sc := c14Scenario{Name: fmt.Sprintf("pair %s||%s", a, b), Threads: [][]string{{a}, {b}}, MaxTrials: mt}
+					if mt != 0 {
+						sc.Name = fmt.Sprintf("MaxTrials=%d: %s", mt, sc.Name)
+					}
+					c14PairMode = true
+					c14Scenario1(c, -1, sc, 0)
+					c14PairMode = false
+					c.Count("pair_battery_scenarios", 1)
+				}
+			}
+		}
+	}
 	if c.Shard == 0 {
 		c.Sample(map[string]interface{}{"scenario": c14Scenarios[0].Name, "plan": []int{0, 0, 0, 1}, "meaning": "thread 0 runs 3 statements, is preempted, thread 1 runs to completion, thread 0 resumes"})
 	}
+}
+
+// c14UsesSeparator: calls that run a separator function.
+func c14UsesSeparator(name string) bool {
+	return strings.Contains(name, "sf") || strings.Contains(name, "SF") || (strings.HasPrefix(name, "w") && strings.Contains(name, "Generate")) || strings.HasSuffix(name, ".Entropy") && strings.HasPrefix(name, "w")
 }
 
 func c14Prepare(tier string) ([]string, func(), error) {
@@ -523,10 +582,17 @@ func init() {
 	})
 	Replayers["C14"] = func(raw json.RawMessage) (string, bool) {
 		var rp struct {
-			Scenario int   `json:"scenario"`
-			Plan     []int `json:"plan"`
+			Scenario  int        `json:"scenario"`
+			Plan      []int      `json:"plan"`
+			Name      string     `json:"name"`
+			Threads   [][]string `json:"threads"`
+			MaxTrials int        `json:"max_trials"`
 		}
 		json.Unmarshal(raw, &rp)
+		c14ReplaySc = nil
+		if rp.Scenario < 0 {
+			c14ReplaySc = &c14Scenario{Name: rp.Name, Threads: rp.Threads, MaxTrials: rp.MaxTrials}
+		}
 		if verifrtMissing() {
 			return "C14 replays need the instrumented -race worker (use ./run C14 quick --replay <file>)", false
 		}
@@ -535,7 +601,11 @@ func init() {
 		vsync.UnblockHook = sched.Unblock
 		c := &core.Ctx{ID: "C14", Tier: "quick", NShards: 1}
 		c14Replay(c, rp.Scenario, rp.Plan)
-		return fmt.Sprintf("scenario %q schedule %v: %d violation(s) %v", c14Scenarios[rp.Scenario].Name, rp.Plan, c.R.NViol, c.R.Violations), c.R.NViol > 0
+		name := rp.Name
+		if rp.Scenario >= 0 {
+			name = c14Scenarios[rp.Scenario].Name
+		}
+		return fmt.Sprintf("scenario %q schedule %v: %d violation(s) %v", name, rp.Plan, c.R.NViol, c.R.Violations), c.R.NViol > 0
 	}
 }
 
